@@ -124,7 +124,9 @@ def _type_of(ip, a, kw, node):
     o = a[0]
     if isinstance(o, PyC) and o.value is None:
         return ZV(TY.NONETYPE, "Ty")
-    return ZV(cls_of(as_v(o)), "Ty")
+    r = ZV(cls_of(as_v(o)), "Ty")
+    r.cls_of_val = isinstance(o, ZV) and base_tag(o.tag) in ("Val", "Callee")      # the class object of a program value: `==` / `in` on it may run a metaclass __eq__
+    return r
 
 
 R.EXTERNALS["builtins.type"] = R.ExtFn(_type_of)
